@@ -336,7 +336,7 @@ class JsonKeyStore(KeyStore):
 
     async def update(self, name: str, keys: PairingKeys) -> None:
         db, key_map = await self.load()
-        key_map.setdefault(name, {}).update(keys.to_dict())
+        key_map[name] = keys.to_dict()
         await self.save(db)
 
     async def get_all(self) -> list[tuple[str, PairingKeys]]:
